@@ -1108,6 +1108,10 @@ pub fn txn_alphabet(it: &Interp, d: usize, f: &TxnFlavor) -> Vec<Op> {
         if np < 2 {
             a.push(txn(CommitMode::OnePhase, vec![Op::PSave]));
         }
+        if np == 0 {
+            // two savepoints of one transaction share its registration
+            a.push(txn(CommitMode::OnePhase, vec![Op::PSave, Op::PSave]));
+        }
         for nth in 0..np.min(2) as u8 {
             a.push(txn(CommitMode::OnePhase, vec![Op::RestoreP { nth }]));
             a.push(txn_end(CommitMode::OnePhase, vec![Op::RestoreP { nth }], End::Abort));
@@ -1483,6 +1487,19 @@ pub fn c05_profiles(quick: bool) -> Vec<(Profile, u64)> {
             setup: s,
             pre: vec![txn(CommitMode::NonDurable, data_body('S', 72)), txn(CommitMode::NonDurable, data_body('D', 73)), Op::Begin],
         });
+    }
+    {
+        // a transaction that spilled big pages out of a small cache, read them back and was
+        // abandoned; what follows allocates pages of other sizes at the same offsets
+        let mut pre = vec![Op::Begin, Op::Open { slot: 0, name: "t".into(), spec: TU }];
+        for i in 1..=3u64 {
+            pre.push(Op::Insert { slot: 0, k: Val::U(4100 + i), v: Val::B(payload(4100 + i, 3000)) });
+        }
+        for i in 1..=3u64 {
+            pre.push(Op::Get { slot: 0, k: Val::U(4100 + i) });
+        }
+        pre.push(Op::Seq(vec![Op::Abort, Op::Begin]));
+        seeds.push(Seed { name: "spilled-then-abandoned/c8192".into(), cfg: CFG_CACHE8K, setup: c01_setup(false, false, false), pre });
     }
     vec![(
         Profile {
